@@ -21,8 +21,8 @@ from ..values import C, FALSE, NONE, TRUE, App, Cls, Ref, Sym, Tup
 READ = f"{RF}.read"
 
 
-def read_paths(ctx, on_cont: bool, skip: bool, ops=("TEXT", "BINARY", "CONT", "PING", "PONG"), may_raise=None, extra_env=None, errors=(), reassembled=False, callbacks=None):
-    I = Interp(ctx.index, Config(stubs=sock_stubs(frame_source(ops, errors, reassembled=reassembled)), may_raise=may_raise))
+def read_paths(ctx, on_cont: bool, skip: bool, ops=("TEXT", "BINARY", "CONT", "PING", "PONG"), may_raise=None, extra_env=None, errors=(), reassembled=False, callbacks=None, fin=None):
+    I = Interp(ctx.index, Config(stubs=sock_stubs(frame_source(ops, errors, reassembled=reassembled, fin=fin)), may_raise=may_raise))
 
     def closure(run):
         cbs = {"on_cont_message": on_cont}
@@ -38,7 +38,7 @@ def read_paths(ctx, on_cont: bool, skip: bool, ops=("TEXT", "BINARY", "CONT", "P
 
 
 @rule("R-C13-1", min_instances=10, title="routing table of read(): per opcode the ordered callbacks and their arguments, one frame per call")
-def r1(ctx):
+def r1(ctx, siblings_only=False):
     loc = ctx.index.loc(ctx.index.func(READ).node)
     data = Sym("fdata", "bytes")
     dec = lambda enc="utf-8": f"m:decode(<fdata>, '{enc}')"
@@ -70,6 +70,32 @@ def r1(ctx):
                 ctx.ob(f"{READ}:{op}{frag}:on_cont_message={'set' if on_cont else 'none'}:skip_utf8={skip}", ok,
                        f"callbacks {calls}" if ok else f"callbacks {calls}, frames read {len(reads)}, result {o.kind} {o.value!r}; the routing table requires {want} after exactly one recv_data_frame(True)",
                        loc, {"path": path_text(o)})
+
+
+    if not siblings_only:
+        first_fragment_clause(ctx)
+
+
+def first_fragment_clause(ctx):
+    loc = ctx.index.loc(ctx.index.func(READ).node)
+    # per-fragment delivery (on_cont_message set): the first fragment of a message arrives as (TEXT|BINARY, fin=0).  It is
+    # not a complete message: on_message must not be called with it, and on_data's final flag must be the frame's.
+    badf = []
+    nfrag = 0
+    for skip in (False, True):
+        I, outs = read_paths(ctx, True, skip, ops=("TEXT", "BINARY"), fin=C(0))
+        for o in outs:
+            op = o.run.memo.get("frame_op")
+            calls = [call_sig(e) for e in user_calls(o)]
+            nfrag += 1
+            if any(c.startswith("on_message(") for c in calls) or any(c.startswith("on_data(") and c.endswith(", True)") for c in calls):
+                badf.append((op, skip, calls, o))
+    if nfrag == 0:
+        raise AnalysisError("no first-fragment class explored")
+    ctx.ob(f"{READ}:first-fragment:on_cont_message=set", not badf, f"{nfrag} classes: a first fragment is not passed off as a message" if not badf else
+           f"with on_cont_message set the first fragment of a fragmented message (TEXT/BINARY frame with fin=0) is delivered as {badf[0][2]} "
+           f"({len(badf)} of {nfrag} opcode x validation classes): a piece is handed to on_message / on_data as if it were the complete message (final flag True), "
+           f"and the complete message never reaches on_message", loc, {"path": path_text(badf[0][3])} if badf else None)
 
 
 @rule("R-C13-6", min_instances=5, title="every subset of callbacks: with no handler installed a frame is consumed silently -- no write, no exception, the loop goes on")
